@@ -89,6 +89,20 @@ fn idat_shape_x<const L1: usize, const L2: usize, const T: usize, const RECREATE
         assert!(idat.chunk_sizes.len() >= 1 && idat.chunk_sizes.len() <= 2);
         assert!(idat.total_chunk_length == sum + 12 * idat.chunk_sizes.len(), "total_chunk_length is not the sum of the chunks");
         assert!(payload.len() + 6 == sum, "payload is not the chunk data minus zlib header and Adler-32");
+        // content: recreate_idat re-emits zlib header ‖ payload ‖ Adler-32 cut at the recorded sizes, so the three must be
+        // exactly the first two, the middle and the last four bytes of the CONCATENATED chunk data (the Adler-32 may
+        // straddle a chunk boundary)
+        let mut cat = [0u8; MAXN];
+        let mut cn = 0usize;
+        let mut i = 0;
+        while i < L1 { cat[cn] = data[8 + i]; cn += 1; i += 1; }
+        if L2 != 255 && idat.chunk_sizes.len() == 2 { let o2 = 12 + L1; let mut i = 0; while i < L2 { cat[cn] = data[o2 + 8 + i]; cn += 1; i += 1; } }
+        if T == 0 && cn == sum {
+            assert!(idat.zlib_header[0] == cat[0] && idat.zlib_header[1] == cat[1], "zlib header is not the first two bytes of the IDAT data");
+            assert!(idat.addler32 == u32::from_be_bytes([cat[cn - 4], cat[cn - 3], cat[cn - 2], cat[cn - 1]]), "Adler-32 is not the last four bytes of the concatenated IDAT data");
+            let mut i = 0;
+            while i + 6 < L1 + (if L2 != 255 { L2 } else { 0 }) { if i < payload.len() { assert!(payload[i] == cat[2 + i], "payload is not the IDAT data between zlib header and Adler-32"); } i += 1; }
+        }
         if !RECREATE { core::mem::forget(r); return ok; }
         let mut out: Vec<u8> = Vec::with_capacity(MAXN);
         let rr = recreate_idat(idat, &payload[..], &mut out);
